@@ -86,6 +86,30 @@ func streamBCD(c *ctx) {
 		w.Emit("bcd-enc "+cases.Hex(s), bcdEnc(s), tag)
 	}
 
+	// --- what Encode hands out is the caller's: written over and appended to, then the same string encoded again
+	for _, str := range []string{"", "1", "12", "2024", "20240229123456"} {
+		out := guard(func() string {
+			first, err := bcd.Encode(str)
+			if err != nil || first == nil {
+				return "err"
+			}
+			before := cases.Hex(*first)
+			for i := range *first {
+				(*first)[i] ^= 0xff
+			}
+			*first = append(*first, 0x20, 0x24, 0x02, 0x29)
+			second, err := bcd.Encode(str)
+			if err != nil || second == nil {
+				return "err"
+			}
+			if cases.Hex(*second) != before {
+				return "changed: " + before + " -> " + cases.Hex(*second)
+			}
+			return "same"
+		})
+		w.Emit("bcd-fresh "+cases.Hex([]byte(str)), out, "enc/fresh-result")
+	}
+
 	// --- Decode: all slices of length 0..2, sampled beyond
 	w.Emit("bcd-dec -", bcdDec(nil), "dec/len0")
 	for a := 0; a < 256; a++ {
